@@ -354,9 +354,11 @@ class Default(TMGRStagingInputComponent):
                 self._prof.prof('staging_in_tar_stop',  uid=uid, msg=did)
 
 
-        # make sure tarball is flushed to disk
+        # make sure tarball is flushed to disk: closing the tar does not close
+        # (or flush) the file object it was opened on
         if tar_file:
             tar_file.close()
+            tmp_file.close()
 
         new_actionables = expand_staging_directives(new_actionables,
                                             src_context, tgt_context, self._log)
